@@ -104,12 +104,16 @@ def facade_case(case):
         opts["max_step"] = case["max_step"]
     if case.get("first_step") is not None:
         opts["first_step"] = case["first_step"]
+    if case.get("prog"):
+        opts["show_prog_bar"] = True       # the progress display: the result must be that of the same call without it (all clauses below apply unchanged)
     t_eval = None if case["t_eval"] is None else np.array(case["t_eval"], dtype=np.float64)
     key = "C18/%s" % meth.replace("/", "_")
     cs = dict(case)
     r.n = 1
     try:
-        res = de.solve_ivp(f, [t0, tf], y0.copy(), method=method, t_eval=t_eval, dense_output=case["dense"], **opts)
+        import contextlib, io
+        with contextlib.redirect_stderr(io.StringIO()):
+            res = de.solve_ivp(f, [t0, tf], y0.copy(), method=method, t_eval=t_eval, dense_output=case["dense"], **opts)
     except Exception as e:
         cause = getattr(e, "__cause__", None)
         if isinstance(cause, de.exception_types.FailedToMeetTolerances):
@@ -452,6 +456,12 @@ def run(ctx):
             for (fs, ms) in ((0.5, 0.1), (0.1, 0.1), (0.05, 0.1), (0.25, 0.125)):
                 for tol in (1e-6, 1e-8):
                     cases.append(dict(section="facade", method=nm, span=list(span), shape=[2], t_eval=None, dense=False, tol=tol, max_step=ms, first_step=fs, by_hand=True))
+    # S4d: the progress display (show_prog_bar) with and without max_step / first_step / t_eval, spans of every direction
+    for nm in ("RK4", "RK45", "ABAS5O6H", "ImplicitMidpoint"):
+        for span in fwd + [(1.0, -1.0), (2.0, 0.5)]:
+            for (fs, ms) in ((None, None), (0.5, 0.1), (None, 0.5)):
+                for te in ((None,) if span[1] < span[0] else (None, [span[0] + 0.5 * (span[1] - span[0]), span[1]])):
+                    cases.append(dict(section="facade", method=nm, span=list(span), shape=[2], t_eval=te, dense=(fs is None), tol=1e-6, max_step=ms, first_step=fs, by_hand=True, prog=True))
     # S4c: events together with t_eval (roots on the output times, between them; sorted and shuffled output times)
     for nm in ("RK45", "RK87", "RK4", "DOPRI45"):
         for tev in ([0.25 * k for k in range(1, 25)], [0.5, 1.5, 2.5, 3.5, 4.5, 5.5, 6.0], [0.3, 1.1, 2.9, 4.7, 6.0], [3.5, 0.5, 6.0, 2.5, 1.5, 5.5, 4.5]):
